@@ -1,3 +1,5 @@
+//go:build go1.21
+
 // Package vro stands in for "sync" in rewritten files (import sync ".../vsched/vro").
 package vro
 
